@@ -20,6 +20,11 @@ Streams
 * ``over`` / ``ordefault``  the accessors against ``SdkDescend.overOrEmpty`` / ``orDefault`` and the
                 existence of ``over_X_or_empty`` against ``hasOverOrEmpty``.
 
+Names: the seed-independent part runs every enumerated model once per NAME SHAPE (``NAME_SHAPES``: upper-case
+abbreviations, digits, single-letter parts, mixed case, empty parts, leading / trailing underscore — every shape
+``IDENTIFIER_RE`` and the reserved-name rules accept) for classes, properties, enumerations, literals and constrained
+primitives (``enumerated_named_trees``); the seeded streams decorate the names of 50–60 % of their models (``shaped``).
+
 Oracle (independent of the Lean model, from the property text): a reflection-based traversal of the SDK
 object over ``mm.all_props`` that looks only at the VALUES (an instance is yielded, a list is
 flattened in order), compared by object identity; recording visitors/transformers; accessor results by
@@ -48,6 +53,12 @@ P, R, L, O = mm.Prim, mm.Ref, mm.ListOf, mm.OptionalOf
 KINDS = ("accept", "accept_with_context", "transform", "transform_with_context")
 
 # =========================================================================== abstract model <-> JSON
+
+
+def _descr(name: str) -> str:
+    """The description of a class: the name only where it cannot be read as reStructuredText markup (``Leaf_`` is a
+    hyperlink reference for docutils, the front end then fails to parse the description)."""
+    return f"Represent {name}." if name.replace("_", "").isalnum() and "__" not in name and not name.endswith("_") and not name.startswith("_") else "Represent a class."
 
 
 def ty_to_json(t: Any) -> Any:
@@ -97,7 +108,7 @@ def mm_from_json(d: Dict[str, Any]) -> Tuple[mm.MM, Dict[str, Any]]:
                 c["name"], bases=list(c["bases"]), abstract=c["abstract"], with_model_type=c["wmt"],
                 props=[mm.Prop(n, ty_from_json(t)) for n, t in c["props"]],
                 methods=[mm.Method(n, returns=ty_from_json(t), impl_specific=True) for n, t in c.get("methods", [])],
-                description=f"Represent {c['name']}.",
+                description=_descr(c["name"]),
             )
             for c in d["classes"]
         ],
@@ -114,7 +125,7 @@ def project(m: mm.MM) -> mm.MM:
     for c in m.classes:
         out.classes.append(
             mm.Class(c.name, bases=list(c.bases), abstract=c.abstract, with_model_type=c.with_model_type,
-                     props=[mm.Prop(p.name, p.type) for p in c.props], description=f"Represent {c.name}.")
+                     props=[mm.Prop(p.name, p.type) for p in c.props], description=_descr(c.name))
         )
     out.enums = [mm.Enum.of(e.name, [(li.name, li.value) for li in e.literals], description="Represent an enumeration.") for e in m.enums]
     out.constrained_primitives = [
@@ -876,6 +887,227 @@ def enumerated_trees() -> Iterator[Tuple[mm.MM, Dict[str, Any], List[Inst], str]
     yield m2, d2, [b2.instance(c, d) for c in ("Both", "Both_more", "Only_left") for d in (1, 2, 3, 4)], "enumerated"
 
 
+# ---- name shapes (added after the seeded change C29-3)
+#
+# The generated code must use the PYTHON name of a property / class / literal everywhere, whatever the shape of the
+# meta-model identifier.  Every shape ``common.IDENTIFIER_RE`` + the reserved-name rules of the front end accept is
+# produced by DECORATING a plain base name, so distinct base names stay distinct (also after any case / underscore
+# normalisation) and no reserved word can appear.
+
+NAME_SHAPES = [
+    "plain",         # held
+    "abbr-last",     # held_ID            (upper-case abbreviation as the last part: referred_semantic_ID)
+    "abbr-plural",   # held_IDs           (specific_asset_IDs)
+    "abbr-first",    # URL_held           (URL_of_manual)
+    "abbr-mid",      # held_URL_of
+    "digit-part",    # held_2
+    "digit-glued",   # held2
+    "letter-part",   # held_x             (single lower-case letter part)
+    "letter-first",  # a_held
+    "upper-letter",  # held_X             (single upper-case letter part)
+    "camel",         # heldThing          (mixed case inside one part)
+    "cap-part",      # held_Thing         (capitalised later part)
+    "upper",         # HELD               (everything upper case)
+    "digit-mixed",   # held_1a_B2
+    "double-us",     # held__b            (empty part)
+    "trail-us",      # held_
+    "lead-us",       # _held              (properties only; types and literals fall back to `cap-first`)
+    "cap-first",     # Held               (a capitalised property / a type as it is)
+]
+
+
+def shape_name(base: str, shape: str, kind: str = "prop") -> str:
+    """``base`` decorated with the name shape; ``kind``: ``prop`` | ``type`` | ``literal``."""
+    if shape == "plain":
+        s = base
+    elif shape == "abbr-last":
+        s = base + "_ID"
+    elif shape == "abbr-plural":
+        s = base + "_IDs"
+    elif shape == "abbr-first":
+        s = "URL_" + base
+    elif shape == "abbr-mid":
+        s = base + "_URL_of"
+    elif shape == "digit-part":
+        s = base + "_2"
+    elif shape == "digit-glued":
+        s = base + "2"
+    elif shape == "letter-part":
+        s = base + "_x"
+    elif shape == "letter-first":
+        s = ("A_" if kind != "prop" else "a_") + base
+    elif shape == "upper-letter":
+        s = base + "_X"
+    elif shape == "camel":
+        s = base + "Thing"
+    elif shape == "cap-part":
+        s = base + "_Thing"
+    elif shape == "upper":
+        s = base.upper()
+    elif shape == "digit-mixed":
+        s = base + "_1a_B2"
+    elif shape == "double-us":
+        s = base + "__b"
+    elif shape == "trail-us":
+        s = base + "_"
+    elif shape == "lead-us" and kind == "prop":
+        s = "_" + base
+    elif shape in ("lead-us", "cap-first"):
+        s = base[0].upper() + base[1:]
+    else:
+        raise ValueError(shape)
+    if kind == "type" and not s[0].isupper():
+        s = s[0].upper() + s[1:]
+    return s
+
+
+def rename_model(m: mm.MM, defaults: Dict[str, Any], trees: Sequence[Inst], type_shape: Any, prop_shape: Any, lit_shape: Any
+                 ) -> Tuple[mm.MM, Dict[str, Any], List[Inst]]:
+    """A copy of (model, defaults, trees) with every name decorated: ``type_shape(name)``, ``prop_shape(owner, name)``,
+    ``lit_shape(enum, name)`` give the shape.  ``ident`` (the harness' identity property) keeps its name."""
+    tmap = {x.name: shape_name(x.name, type_shape(x.name), "type") for x in list(m.classes) + list(m.enums) + list(m.constrained_primitives)}
+    pmap = {(c.name, p.name): (p.name if p.name == "ident" else shape_name(p.name, prop_shape(c.name, p.name), "prop")) for c in m.classes for p in c.props}
+    lmap = {(e.name, li.name): shape_name(li.name, lit_shape(e.name, li.name), "literal") for e in m.enums for li in e.literals}
+
+    def ty(t: Any) -> Any:
+        if isinstance(t, mm.Ref):
+            return R(tmap[t.name])
+        if isinstance(t, mm.ListOf):
+            return L(ty(t.item))
+        if isinstance(t, mm.OptionalOf):
+            return O(ty(t.item))
+        return t
+
+    def val(v: Any) -> Any:
+        if isinstance(v, Inst):
+            return Inst(tmap[v.cls], [val(x) for x in v.fields])
+        if isinstance(v, list):
+            return [val(x) for x in v]
+        if isinstance(v, EnumVal):
+            return EnumVal(tmap[v.enum], lmap[(v.enum, v.literal)])
+        return v
+
+    def method(cname: str, me_name: str) -> str:
+        pname = me_name[: -len("_or_default")]
+        owner = next(o for p, o in mm.all_props(m, cname) if p.name == pname)
+        return pmap[(owner, pname)] + "_or_default"
+
+    out = mm.MM(order=[tmap.get(n, n) for n in m.order] if m.order is not None else None)
+    for c in m.classes:
+        out.classes.append(mm.Class(
+            tmap[c.name], bases=[tmap[b] for b in c.bases], abstract=c.abstract, with_model_type=c.with_model_type,
+            props=[mm.Prop(pmap[(c.name, p.name)], ty(p.type)) for p in c.props],
+            methods=[mm.Method(method(c.name, me.name), returns=ty(me.returns), impl_specific=True) for me in c.methods],
+            description=_descr(tmap[c.name])))
+    out.enums = [mm.Enum.of(tmap[e.name], [(lmap[(e.name, li.name)], li.value) for li in e.literals], description="Represent an enumeration.") for e in m.enums]
+    out.constrained_primitives = [
+        mm.ConstrainedPrimitive(tmap[cp.name], cp.base, [tmap[b] for b in cp.bases], description="Represent a constrained primitive.")
+        for cp in m.constrained_primitives]
+    new_defaults = {}
+    for k, v in defaults.items():
+        cname, me_name = k.split(".", 1)
+        new_defaults[f"{tmap[cname]}.{method(cname, me_name)}"] = val(v)
+    # shared objects stay shared: one copy per original instance
+    memo: Dict[int, Inst] = {}
+
+    def tree(v: Any) -> Any:
+        if isinstance(v, Inst):
+            if id(v) not in memo:
+                memo[id(v)] = Inst(tmap[v.cls], [])
+                memo[id(v)].fields = [tree(x) for x in v.fields]
+            return memo[id(v)]
+        if isinstance(v, list):
+            return [tree(x) for x in v]
+        return val(v)
+
+    return out, new_defaults, [tree(t) for t in trees]
+
+
+def rotating(offset: int, shapes: Sequence[str] = tuple(NAME_SHAPES)) -> Any:
+    """A shape chooser that hands the shapes out round-robin in the order of the calls, starting at ``offset``
+    (per distinct argument: asking twice for the same entity gives the same shape)."""
+    seen: Dict[Any, str] = {}
+
+    def pick(*key: Any) -> str:
+        if key not in seen:
+            seen[key] = shapes[(offset + len(seen)) % len(shapes)]
+        return seen[key]
+
+    return pick
+
+
+def enumerated_named_trees() -> Iterator[Tuple[mm.MM, Dict[str, Any], List[Inst], str]]:
+    """The enumerated models once per NAME SHAPE (seed independent): in model ``j`` the held property of EVERY type shape,
+    the class names, the enumeration, its literals and the constrained primitive carry shape ``j``; the neighbour
+    properties and the accessor properties rotate through the other shapes.  The instance trees are a slice of the
+    plain ones (None / empty / several + both neighbours set), enough to make every generated statement run."""
+    rng = random.Random(20291)
+    m, defaults = shapes_model()
+    b = Builder(m, rng)
+    trees: List[Inst] = []
+    for c in m.classes:
+        if not c.name.startswith("Holder_"):
+            continue
+        vals = enumerated_values(b, c.props[2].type)
+        picked = [vals[0], vals[-1]] if len(vals) > 1 else vals
+        for v in picked:
+            b.counter += 1
+            trees.append(Inst(c.name, [b.counter, b.instance("Leaf", 0), v, b.instance("Leaf", 0)]))
+    for cls in ("Plain_defaults", "More_defaults"):
+        for mask in (0, 5, 10, 15):
+            b.counter += 1
+            vals = [EnumVal("Color", "Red") if mask & 1 else None, 0 if mask & 2 else None, "" if mask & 4 else None, True if mask & 8 else None]
+            trees.append(Inst(cls, [b.counter] + vals + ([None if mask & 1 else 0.0] if cls == "More_defaults" else [])))
+    for j, shape in enumerate(NAME_SHAPES):
+        if shape == "plain":
+            continue
+        others = rotating(j + 1)
+        yield rename_model(
+            m, defaults, trees,
+            type_shape=lambda n, s=shape: s,
+            prop_shape=lambda owner, n, s=shape, o=others: s if n == "held" else o(owner if not owner.startswith("Holder_") else "Holder", n),
+            lit_shape=lambda e, n, s=shape: s,
+        ) + ("enumerated:names",)
+    # the inheritance-order model: every property another shape (inherited ones are read through the subclass)
+    m2, d2 = ordering_model()
+    b2 = Builder(m2, rng)
+    trees2 = [b2.instance(c, d) for c in ("Both", "Both_more", "Only_left") for d in (2, 4)]
+    for offset in (1, 7, 13):
+        pick = rotating(offset)
+        yield rename_model(m2, d2, trees2, type_shape=rotating(offset + 3), prop_shape=lambda owner, n, p=pick: p(owner, n), lit_shape=rotating(offset)) + ("enumerated:names",)
+
+
+def random_shapes(rng: random.Random, p_plain: float = 0.4) -> Any:
+    """A shape chooser for the seeded streams: plain with probability ``p_plain``, otherwise a random shape (stable per entity)."""
+    seen: Dict[Any, str] = {}
+
+    def pick(*key: Any) -> str:
+        if key not in seen:
+            seen[key] = "plain" if rng.random() < p_plain else rng.choice(NAME_SHAPES)
+        return seen[key]
+
+    return pick
+
+
+def shaped(rng: random.Random, m: mm.MM, defaults: Dict[str, Any], trees: Sequence[Inst]) -> Tuple[mm.MM, Dict[str, Any], List[Inst]]:
+    """(model, defaults, trees) with randomly shaped names; the input itself when two members of one class would
+    become equal up to case / underscores (a collision is C21's subject, such a model is not accepted)."""
+    pick = random_shapes(rng)
+    m2, d2, t2 = rename_model(m, defaults, trees, type_shape=lambda n: pick("t", n), prop_shape=lambda o, n: pick("p", o, n), lit_shape=lambda e, n: pick("l", e, n))
+
+    def key(n: str) -> str:
+        return n.lower().replace("_", "")
+
+    for c in m2.classes:
+        names = [key(p.name) for p, _ in mm.all_props(m2, c.name)] + [key(me.name) for k in [c.name] + mm.ancestors(m2, c.name) for me in m2.cls(k).methods]
+        if len(set(names)) != len(names):
+            return m, defaults, list(trees)
+    tnames = [key(x.name) for x in list(m2.classes) + list(m2.enums) + list(m2.constrained_primitives)]
+    if len(set(tnames)) != len(tnames) or any(len({key(li.name) for li in e.literals}) != len(e.literals) for e in m2.enums):
+        return m, defaults, list(trees)
+    return m2, d2, t2
+
+
 # ---- the random part
 
 WORDS = ["alpha", "bravo", "cedar", "dune", "ember", "fjord", "grove", "harbor", "iris", "jade", "kelp", "lotus", "maple", "nectar",
@@ -997,7 +1229,9 @@ def platform_model(rng: random.Random) -> Tuple[mm.MM, Dict[str, Any]]:
 
 
 def run_model(ctx: Ctx, m: mm.MM, defaults: Dict[str, Any], trees: Sequence[Inst], stream: str, with_model: bool, check_main: bool = False,
-              sdk: Optional[Sdk] = None) -> None:
+              sdk: Optional[Sdk] = None, twin_ok: bool = False) -> bool:
+    """``twin_ok``: the same model with plain names was usable in this run (the enumerated name-shape models).  Returns
+    whether the generated module could be used."""
     if sdk is None:
         sdk = Sdk(m, defaults).build()
     mj = mm_to_json(m, defaults) if sdk.spec is None else {"fixture": stream}
@@ -1007,7 +1241,13 @@ def run_model(ctx: Ctx, m: mm.MM, defaults: Dict[str, Any], trees: Sequence[Inst
         ctx.note(f"{stream}: model not usable ({sdk.crash or (sdk.error or '')[:200]})")
         if sdk.crash:
             ctx.sample({"stream": stream, "crash": sdk.crash, "mm": mj})
-        return
+        if twin_ok and sdk.crash and sdk.crash.startswith("import:"):
+            # … except that the generated module of an ACCEPTED model (front end + verify_for_types passed, the code was
+            # generated) cannot even be executed although the same model with plain names works: no instance can be
+            # built, so nothing is ever yielded / dispatched
+            ctx.fail({"mm": mj}, f"the generated types module of an accepted meta-model cannot be executed ({sdk.crash}); with plain names it can",
+                     "C29:module-unusable:" + sdk.crash)
+        return False
     ctx.hit("model:accepted")
     # the property order the front end hands to the generator must be the one of the abstract model
     for c in m.classes:
@@ -1015,7 +1255,7 @@ def run_model(ctx: Ctx, m: mm.MM, defaults: Dict[str, Any], trees: Sequence[Inst
         if real != [p.name for p, _ in mm.all_props(m, c.name)]:
             ctx.note(f"{stream}: property order of {c.name} differs between the front end {real} and the abstract model; model skipped")
             ctx.hit("model:order-mismatch")
-            return
+            return False
     if check_main and (has_nested_list(m) or any(c.methods for c in m.classes)):
         ctx.hit("main:skipped (nested lists crash the jsonization generator / snippets)")
     elif check_main:
@@ -1055,6 +1295,7 @@ def run_model(ctx: Ctx, m: mm.MM, defaults: Dict[str, Any], trees: Sequence[Inst
             if len(batch) > 4000:
                 flush(ctx, batch)
     flush(ctx, batch)
+    return True
 
 
 def _ident(s: str) -> Any:
@@ -1086,8 +1327,12 @@ def _run(ctx: Ctx, with_model: bool) -> None:
         m, defaults = mm_from_json(c["mm"])
         run_model(ctx, m, defaults, [W.from_jsonable(c["instance"])] if "instance" in c else [], "corpus", with_model)
     # enumerated, seed independent
+    plain_ok = True
     for m, defaults, trees, stream in enumerated_trees():
-        run_model(ctx, m, defaults, trees, stream, with_model, check_main=False)
+        plain_ok = run_model(ctx, m, defaults, trees, stream, with_model, check_main=False) and plain_ok
+    # enumerated, seed independent: the same models with every name shape the front end accepts
+    for k, (m, defaults, trees, stream) in enumerate(enumerated_named_trees()):
+        run_model(ctx, m, defaults, trees, stream, with_model, check_main=(k % 6 == 0), twin_ok=plain_ok)
     # random: focused models
     for k in range(ctx.n(24, 300)):
         m, defaults = random_model(ctx.rng)
@@ -1103,6 +1348,9 @@ def _run(ctx: Ctx, with_model: bool) -> None:
             if s is not None:
                 ctx.hit("tree:shared-object")
                 trees.append(s)
+        if ctx.rng.random() < 0.6:
+            m, defaults, trees = shaped(ctx.rng, m, defaults, trees)
+            ctx.hit("names:shaped")
         run_model(ctx, m, defaults, trees, "random", with_model, check_main=(k % 6 == 0))
     # random: models of the shared platform generator
     for k in range(ctx.n(10, 150)):
@@ -1123,6 +1371,9 @@ def _run(ctx: Ctx, with_model: bool) -> None:
                 continue
             if len(W.walk_insts(t)) <= 60:
                 trees.append(t)
+        if ctx.rng.random() < 0.5:
+            m, defaults, trees = shaped(ctx.rng, m, defaults, trees)
+            ctx.hit("names:shaped")
         run_model(ctx, m, defaults, trees, "platform", with_model, check_main=(k % 5 == 0))
     if ctx.tier == "thorough":
         run_fixture(ctx, with_model)
@@ -1202,7 +1453,9 @@ def correspond(ctx: Ctx) -> None:
     ctx.extra_cov["rule"] = (
         "inputs = (meta-model, instance tree); enumerated: one holder class per type shape (prim/enum/constrained/class/abstract/"
         "concrete-with-descendant x plain/optional/list/optional list/nested lists) x {None, [], one, several, nested with empty members} "
-        "x neighbours present/absent + X_or_default masks + an inheritance-order model; random: focused class DAGs and models of the "
+        "x neighbours present/absent + X_or_default masks + an inheritance-order model; the same models once per name shape (17 "
+        "shapes of class / property / enumeration / literal / constrained-primitive names: abbreviations, digits, single letters, "
+        "mixed case, empty parts, leading / trailing underscore); random: focused class DAGs and models of the "
         "shared platform generator with random conforming trees (incl. shared objects); non-trivial = more than one instance; "
         "distinct by (model, tree) wire form; every instance of every tree is exercised"
     )
